@@ -68,7 +68,7 @@ def gen_source(pl: str, form: str, use: bool) -> Tuple[str, str]:
         L += ["import os", stmt, "VALUE = os.sep", "from typing import TYPE_CHECKING", "if TYPE_CHECKING:", "    import os.path as _ospath", "VALUE2 = 2"]
     elif pl == "next_to_if_on_call_attribute":
         # an ordinary module-level `if` whose test is an attribute of a call result (`if get_settings().debug:`)
-        L += ["import os", stmt, "class _Settings:", "    debug = False", "def _settings():", "    return _Settings()", "if _settings().debug:", "    VALUE = os.sep", "if os.path.sep:", "    VALUE2 = 1"]
+        L += ["import os", stmt, "class _Settings:", "    debug = False", "def _settings():", "    return _Settings()", "if _settings().debug:", "    VALUE = os.sep", "if os.path.sep:", "    VALUE2 = 1", "if os.sep != '?':", "    VALUE3 = 1", "if not os.sep:", "    VALUE4 = 1"]
     elif pl == "in_try":
         L += ["import os", "try:", "    " + stmt, "except ImportError:", "    shp = Circle = C = S = None"]
     elif pl == "in_with":
